@@ -344,7 +344,9 @@ def write_evidence(spec, tier, base_seed, results, harness_errors, wall, violati
                 samples.append({"seed": c.get("seed"), "config": c.get("config"), "ops": c.get("ops", [])[:12], "n_ops": len(c.get("ops", []))})
                 break
     n = len([r for r in results if "harness_error" not in r])
+    walls = sorted((r.get("wall", 0), r.get("index", -1)) for r in results)
     cov = {
+        "slowest_runs_s": [(round(w_, 1), i_) for w_, i_ in walls[-3:]],
         "evaluations": n,
         "distinct_nontrivial": len(nontrivial_digests),
         "rule": spec.rule,
@@ -446,7 +448,8 @@ def main_check(prop, tier, base_seed, nruns=None, workers=None):
     for line in kl:
         print(line)
     n = len(results)
-    print("%s tier=%s seed=%d runs=%d wall=%.1fs violations=%d harness_errors=%d" % (prop, tier, base_seed, n, wall, len(viol), len(harness_errors)))
+    slow = max([r.get("wall", 0) for r in results] or [0])
+    print("%s tier=%s seed=%d runs=%d wall=%.1fs violations=%d harness_errors=%d slowest_run=%.1fs" % (prop, tier, base_seed, n, wall, len(viol), len(harness_errors), slow))
     if harness_errors and status == EXIT_OK:
         for h in harness_errors[:3]:
             print("HARNESS-ERROR: " + h[:2000])
